@@ -15,7 +15,7 @@ PURE = (
     "::is_ascii_digit", "::is_ascii_uppercase", "::is_ascii_lowercase", "::contains", "::contains_key",
     "::as_secs", "::subsec_nanos", "::starts_with", "::ends_with", "::is_valid", "::has_column",
     "::index_for_column_name", "::encode_utf16", "::is_stream", "::exists", "::long_string_refs",
-    "::is_modified", "::codepage", "Option::<T>::take", "::parse_str", "::get_column", "::id", "::width", "::get", "::precedence", "::is_char_boundary",
+    "::is_modified", "::codepage", "Option::<T>::take", "::parse_str", "::get_column", "::eq", "::ne", "::id", "::width", "::get", "::precedence", "::is_char_boundary",
 )
 
 
@@ -40,7 +40,13 @@ class Sym:
                     return "fn:%s" % op["fn"]
                 if "static" in op:
                     return "static:%s" % op["static"]
-                return "k:%s" % op.get("txt", "?")
+                txt = op.get("txt", "?")
+                if "::promoted[" in txt:
+                    pf = self.prog.promoted.get(self.fn.crate + "::" + txt)
+                    if pf is not None and depth < 20:
+                        ps = Sym(self.prog, pf)
+                        return ps.local(0, depth + 1)
+                return "k:%s" % txt
             if not is_place(op):
                 return "?"
             return self.place(op["pl"], depth)
